@@ -157,6 +157,15 @@ SPECS = {
         nontrivial=lambda src, ops: sum(1 for l in src if l == "stabilise") >= 2,
         rule_nt="at least two stabilises (the audit runs after every op)",
     ),
+    "C14": dict(
+        title="expert nodes with dynamic dependencies",
+        streams=[("expert", 1500, 60000, 0)],
+        proj=dict(keep_ops=("stabilise", "read", "adddep"), keep_events=("edgecb", "exrun", "obschange", "inv", "invalidate"),
+                  dump=True),
+        oracle=O.oracle_expert, profiles=("debug", "release"), dump=True,
+        nontrivial=lambda src, ops: sum(1 for o in ops for e in o.events if e.startswith("exrun")) >= 2,
+        rule_nt="the recompute function of an expert node ran at least twice",
+    ),
     "C20": dict(
         title="weak_memoize_fn: one shared node per live key, created in the scope of weak_memoize_fn",
         streams=[("memo", 900, 50000, 40), ("memo-dynamic", 300, 10000, 0)],
